@@ -145,8 +145,13 @@ def check(prop, tier, replay, C):
         cmd = [C.GO, "test", "-overlay", overlay, "-tags", "verif", "-vet=off", "-count=1",
                "-timeout", h.get("timeout_" + tier, "20m"), "-run", "^" + h["test"] + "$"] + \
               h.get("go_flags", []) + [h["pkg"]]
-        rc, out = C.run(cmd, cwd=REPO, env=env)
         sp = os.path.join(outdir, name + ".summary.json")
+        rc, out = C.run(cmd, cwd=REPO, env=env)
+        if rc != 0 and not os.path.exists(sp):
+            # the harness process died before writing its summary (compiler killed under memory
+            # pressure, a transient toolchain error): one more attempt before calling the tie broken
+            C.log(f"harness {name} died without a summary (rc={rc}); retrying once")
+            rc, out = C.run(cmd, cwd=REPO, env=env)
         if rc != 0 and not os.path.exists(sp):
             tail = "\n".join(l for l in out.splitlines() if '"level"' not in l)[-3000:]
             broken.append(("tie", f"harness {name} failed to run (rc={rc})", tail))
